@@ -189,6 +189,7 @@ func startWorker(id, tier string, n int, deadline time.Time, c *Check, buildDir 
 		return nil, err
 	}
 	cmd := exec.Command(exe, "worker", id, tier)
+	cmd.SysProcAttr = &syscall.SysProcAttr{Pdeathsig: syscall.SIGKILL} // workers never outlive the driver
 	w := &workerProc{cmd: cmd, stderr: &bytes.Buffer{}}
 	cmd.Stderr = w.stderr
 	env := os.Environ()
@@ -319,7 +320,9 @@ func DriverMain(id, tier string) int {
 		fatals   []*Violation
 		infra    []string
 		restarts int
+		aborted  string
 	)
+	const maxFatals = 12
 	queue := make(chan job, len(jobs)+16)
 	for _, j := range jobs {
 		queue <- j
@@ -345,6 +348,12 @@ func DriverMain(id, tier string) int {
 					return
 				}
 				for attempt := 0; ; attempt++ {
+					mu.Lock()
+					stop := aborted != "" || time.Now().After(deadline)
+					mu.Unlock()
+					if stop {
+						break // leave the job unfinished: reported as exhaustive=false
+					}
 					if w == nil {
 						var err error
 						if w, err = startWorker(id, tier, wi, deadline, c, buildDir); err != nil {
@@ -385,6 +394,9 @@ func DriverMain(id, tier string) int {
 					w = nil
 					mu.Lock()
 					restarts++
+					if restarts >= maxFatals && aborted == "" {
+						aborted = fmt.Sprintf("aborted after %d fatal worker errors (every one is reported; the remaining shards were not explored)", restarts)
+					}
 					mu.Unlock()
 					if jl == "" || attempt > 200 {
 						mu.Lock()
@@ -493,6 +505,11 @@ func DriverMain(id, tier string) int {
 			total.Exhaustive = false
 			capped = st.Capped
 		}
+	}
+	if aborted != "" {
+		capped = aborted
+	} else if !total.Exhaustive && capped == "" {
+		capped = "internal deadline reached before all shards were handed out"
 	}
 	for _, v := range fatals {
 		addViol(v)
